@@ -212,5 +212,63 @@ func NormalizeStream(toks []string) []string {
 		return toks
 	}
 	budget := 20000
-	return append(flatten2(normList(tree, &budget), nil), toks[cut:]...)
+	k := 0
+	return append(flatten2(renameBinders(normList(tree, &budget), nil, &k), nil), toks[cut:]...)
+}
+
+// renameBinders names the variables bound by `with` positionally ($w1, $w2, ... in the order of the normal form), so that
+// renaming such a variable on one side only - a local of the generated Go has no meaning outside its section - is not a
+// difference. The scope of a binding is the rest of its statement list.
+func renameBinders(list []snode, env map[string]string, k *int) []snode {
+	sub := func(toks []string, env map[string]string) []string {
+		if len(env) == 0 {
+			return toks
+		}
+		out := make([]string, len(toks))
+		for i, t := range toks {
+			out[i] = t
+			if r, ok := env[t]; ok && !(i+1 < len(toks) && (toks[i+1] == "|->" || toks[i+1] == ":" && i > 0 && (toks[i-1] == "[" || toks[i-1] == ","))) {
+				out[i] = r
+			}
+		}
+		return out
+	}
+	var out []snode
+	for _, s := range list {
+		n := snode{kind: s.kind}
+		if s.kind == "" && len(s.head) >= 3 && (s.head[0] == "WITH" || s.head[0] == "WITHSET") {
+			name := s.head[1]
+			h := append([]string{s.head[0], ""}, sub(s.head[2:], env)...)
+			*k++
+			nv := "$w" + itoa(*k)
+			h[1] = nv
+			n.head = h
+			ne := map[string]string{}
+			for a, b := range env {
+				ne[a] = b
+			}
+			ne[name] = nv
+			env = ne
+			out = append(out, n)
+			continue
+		}
+		n.head = sub(s.head, env)
+		for _, a := range s.arms {
+			n.arms = append(n.arms, renameBinders(a, env, k))
+		}
+		out = append(out, n)
+	}
+	return out
+}
+
+func itoa(n int) string {
+	if n == 0 {
+		return "0"
+	}
+	var b []byte
+	for n > 0 {
+		b = append([]byte{byte('0' + n%10)}, b...)
+		n /= 10
+	}
+	return string(b)
 }
